@@ -23,6 +23,10 @@ Definition is_digit (a : Ascii.ascii) : bool :=
 Definition is_name_start (a : Ascii.ascii) : bool :=
   let n := Ascii.nat_of_ascii a in
   bool_decide ((65 <= n ∧ n <= 90) ∨ (97 <= n ∧ n <= 122) ∨ n = 95).
+(** [A-Za-z0-9_'.] *)
+Definition is_name_char (a : Ascii.ascii) : bool :=
+  let n := Ascii.nat_of_ascii a in
+  is_name_start a || is_digit a || bool_decide (n = 39 ∨ n = 46).
 Fixpoint all_chars (p : Ascii.ascii -> bool) (s : string) : bool :=
   match s with EmptyString => true | String a s => p a && all_chars p s end.
 
@@ -34,6 +38,7 @@ Definition lex1 (lt : lex_table) (reserved : list (string * string)) (sp : strin
   | EmptyString => None
   | String a rest =>
       if is_name_start a then
+        if negb (all_chars is_name_char rest) then None else
         Some (Tok (default "NAME" (snd <$> list_find (fun kv => bool_decide (kv.1 = sp)) reserved
                                       ≫= fun kv => Some kv.2)) sp)
       else if all_chars is_digit sp then Some (Tok "NUMBER" sp)
